@@ -1,0 +1,74 @@
+// SPDX-FileCopyrightText: 2026 The Pion community <https://pion.ly>
+// SPDX-License-Identifier: MIT
+
+//go:build verif && !js
+
+package webrtc
+
+import (
+	"runtime"
+	"sync/atomic"
+	"time"
+
+	"github.com/pion/logging"
+)
+
+// VerifConnState drives updateConnectionState on a bare PeerConnection (verification hook, C22).
+type VerifConnState struct {
+	pc       *PeerConnection
+	notified chan PeerConnectionState
+}
+
+// NewVerifConnState creates a PeerConnection holding only the fields updateConnectionState touches.
+func NewVerifConnState(prev PeerConnectionState) *VerifConnState {
+	v := &VerifConnState{
+		pc: &PeerConnection{
+			isClosed: &atomic.Bool{},
+			log:      logging.NewDefaultLoggerFactory().NewLogger("verif"),
+		},
+		notified: make(chan PeerConnectionState, 1024),
+	}
+	v.pc.connectionState.Store(prev)
+	v.pc.OnConnectionStateChange(func(s PeerConnectionState) { v.notified <- s })
+
+	return v
+}
+
+// Update runs one updateConnectionState call and returns the stored state and the values the
+// handler received for this call (the handler runs in its own goroutine: wait for it when the
+// stored value changed).
+func (v *VerifConnState) Update(
+	closed bool, ice ICEConnectionState, dtls DTLSTransportState,
+) (PeerConnectionState, []PeerConnectionState) {
+	v.pc.isClosed.Store(closed)
+	before := v.pc.ConnectionState()
+	v.pc.updateConnectionState(ice, dtls)
+	after := v.pc.ConnectionState()
+	var got []PeerConnectionState
+	wait := 300 * time.Microsecond
+	if before != after {
+		wait = 2 * time.Second
+	} else {
+		for i := 0; i < 20; i++ {
+			runtime.Gosched()
+		}
+	}
+	select {
+	case s := <-v.notified:
+		got = append(got, s)
+	case <-time.After(wait):
+	}
+	for {
+		select {
+		case s := <-v.notified:
+			got = append(got, s)
+
+			continue
+		default:
+		}
+
+		break
+	}
+
+	return after, got
+}
